@@ -15,7 +15,8 @@ import textwrap
 
 import billiard.pool as bp
 import billiard.common as bc
-from harness.hbase import Prune, trace, cheap_einfo
+import pickle as _pickle
+from harness.hbase import Prune, trace, cheap_einfo, untraced
 
 bp.error = lambda *a, **k: None
 bp.debug = lambda *a, **k: None
@@ -152,15 +153,23 @@ class Outq:
 
     def put(self, m):
         self.ctl.point('put')
-        if m[0] == bp.READY and m[1][2][0] is True and isinstance(m[1][2][1], Unpicklable):
-            raise TypeError('cannot pickle Unpicklable object')
+        # the message really crosses a pipe: it is pickled (outside the tracer: nothing symbolic is inside a message)
+        with untraced():
+            _pickle.dumps(m)
         self.msgs.append(m)
         self.ctl.point('put-done')
+
+
+class WontPickle(Exception):
+    """serialisation failures come in any exception class"""
 
 
 class Unpicklable:
     def __repr__(self):
         return '<Unpicklable>'
+
+    def __reduce__(self):
+        raise WontPickle('this value cannot be serialised')
 
 
 class Counter:
